@@ -1030,3 +1030,81 @@ def c03(ctx):
                        "interpreter) or one shipped test program with all its @Test vectors; non-trivial = at least three statements; class "
                        "`rejected` = the compiler refuses the program (not counted as held or violated)")
     ctx.check_drift()
+
+
+# ---------------------------------------------------------------------- C07
+ARITH_OPS = '{"add", "sub", "mul", "udiv", "umod", "idiv", "imod", "ult", "ule", "ugt", "uge", "ilt", "ile", "igt", "ige", "eq", "neq", "band", "bor", "bxor", "bclr", "hamming", "mux"}'
+ARITH_CFG = """SPECIFICATION Spec
+CONSTANTS
+  OpSet = %s
+  WMin = %d
+  WMax = %d
+  WzKinds = %s
+  EqualOnly = %s
+CONSTRAINT Emit
+INVARIANT RefSane
+CHECK_DEADLOCK FALSE
+"""
+
+
+@prop("C07")
+def c07(ctx):
+    thorough = ctx.tier == "thorough"
+    ctx.build()
+    ctx.assumptions += ["Circuit.Compute is the evaluator of record (tied to garbled evaluation by C01)",
+                        "TLC enumerates complete truth tables for widths up to 5 (8 for equal widths); wider operands (to 130 bits) are "
+                        "boundary-pattern samples checked relationally with limb arithmetic (BV.tla)",
+                        "signed modulo is |x| mod |y| as the shipped vectors fix it; division by zero is unspecified"]
+    runs = [("arith-all", ARITH_OPS, 1, 5 if thorough else 3, '{"max", "max+1", "2max", "2max+3"}' if thorough else '{"max", "max+1", "2max"}', "FALSE")]
+    runs.append(("arith-eq", '{"add", "sub", "mul", "udiv", "umod", "idiv", "imod", "ilt", "uge", "eq", "hamming"}', 4 if not thorough else 6,
+                 6 if not thorough else 8, '{"max"}', "TRUE"))
+    allcases = []
+    for name, ops, wmin, wmax, kinds, eq in runs:
+        g = ctx.tlc("Arith", "Arith_gen.cfg", mode="gen", name=name, timeout=3400, heap="16g", cfg_text=ARITH_CFG % (ops, wmin, wmax, kinds, eq))
+        if g["status"] != "ok" or not g["cases"]:
+            raise Broken("Arith generator failed: %s\n%s" % (g["status"], g["out"][-2000:]))
+        allcases += g["cases"]
+    cf = os.path.join(ctx.tmp, "c07cases.ndjson")
+    write_ndjson(cf, allcases)
+    rf = os.path.join(ctx.tmp, "c07res.ndjson")
+    ctx.run_vh(["c07", "tables", cf, rf], timeout=3400)
+    n = ctx.absorb(rf)
+    ctx.cov["traces_validated_against_impl"] += n
+    ctx.cov["truth_tables"] = len(allcases)
+    ctx.cov["table_entries"] = sum(len(c["table"]) for c in allcases)
+    # wide operands, relational
+    trace = os.path.join(ctx.tmp, "arith_trace.ndjson")
+    wres = os.path.join(ctx.tmp, "c07wide.ndjson")
+    ctx.run_vh(["c07", "wide", trace, wres, 3200 if thorough else 320], timeout=3400)
+    ctx.absorb(wres)
+    rows = read_ndjson(trace)
+    ctx.cov["wide_events"] = len(rows)
+    t = ctx.tlc("ArithTrace", "ArithTrace.cfg", mode="trace", files=[trace], timeout=3400, xss="64m")
+    if t["status"] == "invariant":
+        import re
+        m = re.findall(r"bad = (\d+)", t["out"])
+        ln = int(m[-1]) if m else 0
+        ev = rows[ln - 1] if 0 < ln <= len(rows) else {}
+        ctx.violation("wide:%s:%s:%s,%s,%s" % (ev.get("op"), ev.get("target"), ev.get("wx"), ev.get("wy"), ev.get("wz")),
+                      "the %s circuit for operand widths (%s,%s), result width %s on %s computes a result that violates the exact "
+                      "relation (trace line %d: x=%s y=%s z=%s, base-4096 limbs)" % (ev.get("op"), ev.get("wx"), ev.get("wy"), ev.get("wz"),
+                                                                                   ev.get("target"), ln, ev.get("x"), ev.get("y"), ev.get("z")), ev)
+    elif t["status"] != "ok":
+        raise Broken("ArithTrace failed: %s\n%s" % (t["status"], t["out"][-3000:]))
+    else:
+        ctx.cov["traces_validated_against_impl"] += len(rows)
+    # binding self-test
+    r2 = [json.loads(json.dumps(x)) for x in rows]
+    i = next((i for i, x in enumerate(r2) if x["op"] == "mul"), None)
+    if i is not None:
+        r2[i]["z"][0] ^= 1
+        p2 = os.path.join(ctx.tmp, "selftest", "arith_trace.ndjson")
+        os.makedirs(os.path.dirname(p2), exist_ok=True)
+        write_ndjson(p2, r2)
+        x = ctx.tlc("ArithTrace", "ArithTrace.cfg", mode="trace", files=[p2], name="arith-selftest", xss="64m")
+        if x["status"] != "invariant":
+            raise Broken("binding self-test: ArithTrace accepted a flipped result bit")
+        ctx.cov["binding_selftest"] = {"flipped-product-bit": x["status"]}
+    ctx.cov["exhaustive"] = True
+    ctx.cov["rule"] = ("one evaluation = one complete truth table (op, wx, wy, wz) compared on both targets, or one wide (op, widths, target) "
+                       "circuit on six boundary operand pairs; non-trivial = at least 4 operand bits; tables are exhaustive over operands")
